@@ -10,7 +10,7 @@ def run(tier):
     c.add_tlc(r, "frames (rational rotations x translations; longitude offsets); exact group structure on the lattice")
     beh = list(dict.fromkeys(r.behaviours))
     trench = [b for b in beh if '"trench-shapes"' in b[:600]]
-    beh = [b for b in beh if '"trench-shapes"' not in b[:600]] + (trench[::3] if quick else trench[::7])
+    beh = [b for b in beh if '"trench-shapes"' not in b[:600]] + (trench[c.seed % 11::11] if quick else trench[c.seed % 5::5])
     res = replay.replay(exe, beh, shards=16, timeout_s=120)
     c.add_replay(res, "base world at p vs moved world at g.p")
     c.sample(beh[0][:2500] + "...")
